@@ -751,3 +751,14 @@ def r4_3(rep):
         extra = [(a[0], a[1]) for a in guard_atoms(ft, cw[0]) if (a[0], a[1]) not in base]
         okcw = any("method_is_const" in s_ and p_ for s_, p_ in extra) and all(p_ and ("method_is_const" in s_ or "CXCursor_CXXMethod" in s_) for s_, p_ in extra)
     rep.check(okcw, "this:const-method-const-this", "`this` points to the const-qualified class exactly for const methods", ft.loc(cw[0]) if cw else ft.loc(ft.root))
+
+
+# R4.4 — added by the main session: an independently seeded C04-breaking change dropped the ABI name from the merge key of
+# `--merge-extern-blocks` (functions of an `extern "win64"` block were folded into the `extern "C"` block).  The rule is
+# C18's R18.1 (shared implementation): a foreign function keeps its calling convention when blocks are merged.
+def _r4_4(rep):
+    import c18
+    c18.r18_1(rep)
+
+
+RULES.rule("R4.4", "merging extern blocks never moves a function under another ABI (merge key compares abi, attrs, unsafety)", floor=3)(_r4_4)
